@@ -308,6 +308,14 @@ def run(ck):
         route = c01.ROUTES[int(rng.integers(0, len(c01.ROUTES)))]
         inp = dict(definition=d, route=route, seed=k)
         try:
+            if len(d["params"]) >= 2 and k % 3 == 0:
+                # a model with the same equations and the parameters declared in the opposite order is built and evaluated first
+                tw, _ = mg.build(dict(d, params=list(reversed(d["params"]))), route=route, rng=np.random.default_rng(k))
+                ptw = mg.random_point(np.random.default_rng(k + 7), d)
+                tw.parameters = {p_: float(ptw[p_]) for p_ in d["params"]}
+                xtw = np.array([float(ptw[s_]) for s_ in d["states"]])
+                for f_ in (tw.jacobian, tw.grad, tw.diff_jacobian, tw.grad_jacobian):
+                    f_(xtw, float(ptw["t"]))
             m, order = mg.build(d, route=route, rng=np.random.default_rng(k))
             pt = mg.random_point(rng, d)
             pv = pyg_derivs(m, pt)
